@@ -5,7 +5,7 @@ import time
 import z3
 
 from pyvc.values import (
-    AttrEntry, EngineUnsupported, HDict, HList, HMap, HObject, Ref, SBits, SBool, SInt,
+    AttrEntry, EngineUnsupported, HDict, HList, HMap, HObject, HSeq, hmap_from_dict, Ref, SBits, SBool, SInt,
     SOpaque, Sym, UNDEF, bits_to_int, bool_term, fresh_name, int_term, zite,
 )
 
@@ -74,7 +74,11 @@ def quick_solver(timeout_ms=2000):
     return s
 
 
-def feasible(pc, extra=None, timeout_ms=2000):
+FEAS_MS = 400
+
+
+def feasible(pc, extra=None, timeout_ms=None):
+    timeout_ms = timeout_ms or FEAS_MS
     """False only if pc (and extra) is definitely unsatisfiable."""
     s = quick_solver(timeout_ms)
     for t in pc:
@@ -223,6 +227,13 @@ def merge_val(c, a, b):
         return SInt(z3.If(c, int_term(a), int_term(b)))
     if isinstance(a, SOpaque) and isinstance(b, SOpaque) and a.kind == b.kind:
         return SOpaque(a.kind, z3.If(c, a.t, b.t))
+    if isinstance(a, (str, SOpaque)) and isinstance(b, (str, SOpaque)):
+        za = z3.StringVal(a) if isinstance(a, str) else (a.t if a.kind == "str" else None)
+        zb = z3.StringVal(b) if isinstance(b, str) else (b.t if b.kind == "str" else None)
+        if za is not None and zb is not None:
+            if isinstance(a, str) and isinstance(b, str) and a == b:
+                return a
+            return SOpaque("str", z3.If(c, za, zb))
     if isinstance(a, Ref) and isinstance(b, Ref) and a.oid == b.oid:
         return a
     if isinstance(a, tuple) and isinstance(b, tuple) and len(a) == len(b):
@@ -257,17 +268,31 @@ def merge_states(c, base, a, b):
     out.env = {}
     for k in set(a.env) | set(b.env):
         if k in a.env and k in b.env:
-            out.env[k] = merge_val(c, a.env[k], b.env[k])
+            try:
+                out.env[k] = merge_val(c, a.env[k], b.env[k])
+            except NoMerge:
+                out.env[k] = UNDEF  # poison: any later use makes the function 'unsupported', never a wrong verdict
         else:
             out.env[k] = UNDEF
     for k in set(a.ghost) | set(b.ghost):
         out.ghost[k] = merge_val(c, a.ghost[k], b.ghost[k])
     for oid in a.heap:
         oa, ob = a.heap[oid], b.heap[oid]
-        if isinstance(oa, HDict) and isinstance(ob, HMap) and not oa.d:
-            oa = HMap.empty()
-        if isinstance(ob, HDict) and isinstance(oa, HMap) and not ob.d:
-            ob = HMap.empty()
+        try:
+            if isinstance(oa, HDict) and isinstance(ob, HDict) and list(oa.d) != list(ob.d):
+                oa, ob = hmap_from_dict(oa.d), hmap_from_dict(ob.d)
+            if isinstance(oa, HDict) and isinstance(ob, HMap):
+                oa = hmap_from_dict(oa.d)
+            if isinstance(ob, HDict) and isinstance(oa, HMap):
+                ob = hmap_from_dict(ob.d)
+            if isinstance(oa, HList) and isinstance(ob, HList) and len(oa.items) != len(ob.items):
+                oa, ob = HSeq.from_list(oa.items), HSeq.from_list(ob.items)
+            if isinstance(oa, HList) and isinstance(ob, HSeq):
+                oa = HSeq.from_list(oa.items)
+            if isinstance(ob, HList) and isinstance(oa, HSeq):
+                ob = HSeq.from_list(ob.items)
+        except EngineUnsupported as e:
+            raise NoMerge(str(e))
         if type(oa) is not type(ob):
             raise NoMerge("heap obj type")
         if isinstance(oa, HList):
@@ -292,6 +317,8 @@ def merge_states(c, base, a, b):
                                  oa.val if _same(oa.val, ob.val) else _ite_any(c, oa.val, ob.val),
                                  oa.dom if _same(oa.dom, ob.dom) else z3.If(c, oa.dom, ob.dom),
                                  oa.tuple_valued)
+        elif isinstance(oa, HSeq):
+            out.heap[oid] = HSeq(z3.simplify(z3.If(c, oa.n, ob.n)), oa.arr if oa.arr.eq(ob.arr) else z3.If(c, oa.arr, ob.arr))
         elif isinstance(oa, HObject):
             o = oa.copy()
             if set(oa.fields) != set(ob.fields):
